@@ -86,7 +86,10 @@ def cases(draw, transports):
             'maxread': draw(st.sampled_from([1, 1, 2, 3])), 'transport': draw(st.sampled_from(transports)),
             'bytes_mode': draw(st.integers(0, 9)) == 0,
             # pty: a control character is sent after every read (the send side must not touch the read decoder)
-            'interleave': draw(st.booleans())}
+            'interleave': draw(st.booleans()),
+            # the pending text is re-assigned (`child.buffer = child.buffer`, the idiom for editing or discarding
+            # it) after every read: the text buffer is not the byte stream, the decoder state must survive
+            'setbuf': draw(st.booleans())}
 
 
 def reference(case):
@@ -161,6 +164,8 @@ def _read_sizes(sp, case, T):
         if not isinstance(got, T):
             raise Violation('type', 'read_nonblocking returned %r in %s mode' % (type(got), T.__name__))
         out.append(got)
+        if case.get('setbuf'):
+            sp.buffer = sp.buffer
     try:
         extra = sp.read_nonblocking(size=100, timeout=10)
         raise Violation('extra-data', 'read after the whole stream returned %r instead of EOF' % (extra,))
@@ -252,6 +257,8 @@ def run_pty(case, T):
                     while True:
                         got += child.read_nonblocking(child.maxread, 10)
                         child.sendcontrol('g')
+                        if case.get('setbuf'):
+                            child.buffer = child.string_type()
                 except EOF:
                     pass
                 return got, log
